@@ -13,7 +13,7 @@
 //!      (over the whole universe of names the generator can produce);
 //!   O3 a view whose source table was not touched since the view was created returns exactly
 //!      the rows of its defining query.
-use std::collections::{BTreeMap, BTreeSet};
+use std::collections::{BTreeMap, BTreeSet, VecDeque};
 use std::sync::Arc;
 
 use arrow::array::{Array, AsArray, RecordBatch};
@@ -234,20 +234,54 @@ fn variant(rng: &mut Rng, base: &str) -> Ident {
         _ => Ident { text: base.to_ascii_uppercase(), quoted: true },  // a DIFFERENT object
     }
 }
+/// quoted names that collide case-insensitively with reserved / virtual / default names:
+/// they are ORDINARY user objects (resolution and the information_schema filter are case-sensitive)
+const SPECIAL_SCHEMAS: [&str; 4] = ["Information_Schema", "INFORMATION_SCHEMA", "Public", "Datafusion"];
+const SPECIAL_TABLES: [&str; 6] = ["Information_Schema", "INFORMATION_SCHEMA", "Public", "Datafusion", "Tables", "SCHEMATA"];
+thread_local! {
+    /// per-history "focus" schema: histories that build objects inside one of the special schemas
+    static FOCUS: std::cell::RefCell<Option<Ident>> = const { std::cell::RefCell::new(None) };
+}
+fn quoted(s: &str) -> Ident {
+    Ident { text: s.to_string(), quoted: true }
+}
+fn table_ident(rng: &mut Rng) -> Ident {
+    if rng.chance(1, 8) {
+        quoted(SPECIAL_TABLES[rng.below(SPECIAL_TABLES.len() as u64) as usize])
+    } else {
+        let base = TABLE_BASES[rng.below(TABLE_BASES.len() as u64) as usize];
+        variant(rng, base)
+    }
+}
+fn schema_ident(rng: &mut Rng) -> Ident {
+    let focus = FOCUS.with(|f| f.borrow().clone());
+    if let Some(f) = focus {
+        if rng.chance(1, 2) {
+            return f;
+        }
+    }
+    if rng.chance(1, 8) {
+        quoted(SPECIAL_SCHEMAS[rng.below(SPECIAL_SCHEMAS.len() as u64) as usize])
+    } else {
+        let sc = pick_schema(rng);
+        variant(rng, sc)
+    }
+}
+fn catalog_ident(rng: &mut Rng, zz_den: u64) -> Ident {
+    if rng.chance(1, 12) {
+        return quoted("Datafusion");
+    }
+    let c = if rng.chance(1, zz_den) { "zz" } else if rng.chance(1, 3) { "c1" } else { "datafusion" };
+    variant(rng, c)
+}
 fn gen_table_ref(rng: &mut Rng) -> Ref {
-    let base = TABLE_BASES[rng.below(TABLE_BASES.len() as u64) as usize];
-    let t = variant(rng, base);
+    let t = table_ident(rng);
+    let focused = FOCUS.with(|f| f.borrow().is_some());
     match rng.below(40) {
-        0..=21 => vec![t],
-        22..=31 => {
-            let sc = pick_schema(rng);
-            vec![variant(rng, sc), t]
-        }
-        32..=37 => {
-            let c = if rng.chance(1, 10) { "zz" } else if rng.chance(1, 3) { "c1" } else { "datafusion" };
-            let sc = pick_schema(rng);
-            vec![variant(rng, c), variant(rng, sc), t]
-        }
+        0..=21 if !focused => vec![t],
+        0..=9 => vec![t],
+        10..=31 => vec![schema_ident(rng), t],
+        32..=37 => vec![catalog_ident(rng, 10), schema_ident(rng), t],
         _ => vec![variant(rng, "x"), variant(rng, "datafusion"), variant(rng, "public"), t],
     }
 }
@@ -259,14 +293,10 @@ fn pick_schema(rng: &mut Rng) -> &'static str {
     }
 }
 fn gen_schema_ref(rng: &mut Rng) -> Ref {
-    let sc = pick_schema(rng);
-    let s = variant(rng, sc);
+    let s = schema_ident(rng);
     match rng.below(12) {
         0..=6 => vec![s],
-        7..=10 => {
-            let c = if rng.chance(1, 6) { "zz" } else if rng.chance(1, 2) { "c1" } else { "datafusion" };
-            vec![variant(rng, c), s]
-        }
+        7..=10 => vec![catalog_ident(rng, 6), s],
         _ => vec![variant(rng, "datafusion"), variant(rng, "public"), s],
     }
 }
@@ -280,7 +310,7 @@ fn gen_query(rng: &mut Rng, counter: &mut u64) -> Query {
 }
 fn gen_stmt(rng: &mut Rng, counter: &mut u64) -> Stmt {
     match rng.below(100) {
-        0..=4 => Stmt::CreateCatalog { n: variant(rng, "c1"), ine: rng.chance(1, 2) },
+        0..=4 => Stmt::CreateCatalog { n: if rng.chance(1, 4) { quoted("Datafusion") } else { variant(rng, "c1") }, ine: rng.chance(1, 2) },
         5..=14 => Stmt::CreateSchema { r: gen_schema_ref(rng), ine: rng.chance(1, 2) },
         15..=22 => Stmt::DropSchema { r: gen_schema_ref(rng), ifx: rng.chance(1, 2), cascade: rng.chance(1, 2) },
         23..=52 => {
@@ -449,23 +479,34 @@ async fn rows_of(ctx: &SessionContext, sql: &str) -> Result<Vec<String>, String>
 
 /// every (catalog, schema, table) the generator can name, normalised
 fn universe() -> Vec<(String, String, String)> {
-    let mut u = vec![];
+    let mut cats: Vec<String> = vec![];
     for c in CATALOGS {
-        for s in SCHEMAS {
-            for sv in [s.to_string(), s.to_ascii_uppercase()] {
-                for t in TABLE_BASES {
-                    for tv in [t.to_string(), t.to_ascii_uppercase()] {
-                        u.push((c.to_string(), sv.clone(), tv));
-                    }
-                }
-            }
-        }
-        // upper-case catalog variants
+        cats.push(c.to_string());
+        cats.push(c.to_ascii_uppercase());
     }
+    cats.push("Datafusion".into());
+    let mut schemas: Vec<String> = vec![];
     for s in SCHEMAS {
-        for t in TABLE_BASES {
-            u.push(("C1".into(), s.to_string(), t.to_string()));
-            u.push(("DATAFUSION".into(), s.to_string(), t.to_string()));
+        schemas.push(s.to_string());
+        schemas.push(s.to_ascii_uppercase());
+    }
+    schemas.extend(SPECIAL_SCHEMAS.iter().map(|s| s.to_string()));
+    let mut tables: Vec<String> = vec![];
+    for t in TABLE_BASES {
+        tables.push(t.to_string());
+        tables.push(t.to_ascii_uppercase());
+    }
+    tables.extend(SPECIAL_TABLES.iter().map(|s| s.to_string()));
+    schemas.sort();
+    schemas.dedup();
+    tables.sort();
+    tables.dedup();
+    let mut u = vec![];
+    for c in &cats {
+        for s in &schemas {
+            for t in &tables {
+                u.push((c.clone(), s.clone(), t.clone()));
+            }
         }
     }
     u
@@ -501,8 +542,25 @@ async fn one_history(run: &mut Run, rng: &mut Rng, h: u64, max_len: u64) {
     let mut views: BTreeMap<(String, String, String), ViewInfo> = BTreeMap::new();
     let mut clock = 0u64;
     let mut sqls: Vec<String> = vec![];
+    // a quarter of the histories first build objects inside a quoted schema whose name collides
+    // case-insensitively with `information_schema` / `public` / the default catalog
+    let mut queue: VecDeque<Stmt> = VecDeque::new();
+    if rng.chance(1, 4) {
+        let f = quoted(SPECIAL_SCHEMAS[rng.below(SPECIAL_SCHEMAS.len() as u64) as usize]);
+        FOCUS.with(|c| *c.borrow_mut() = Some(f.clone()));
+        run.count(&format!("focus-schema:{}", f.text));
+        queue.push_back(Stmt::CreateSchema { r: vec![f.clone()], ine: false });
+        let t = table_ident(rng);
+        queue.push_back(Stmt::CreateTable { r: vec![f.clone(), t.clone()], ine: false, orr: false, body: Body::Cols(vec![DECL_COLS[0].clone(), DECL_COLS[1].clone()]) });
+        if rng.chance(1, 2) {
+            counter += 1;
+            queue.push_back(Stmt::CreateView { r: vec![f.clone(), table_ident(rng)], orr: false, q: Query::From(vec![f.clone(), t]) });
+        }
+    } else {
+        FOCUS.with(|c| *c.borrow_mut() = None);
+    }
     for _ in 0..len {
-        let st = gen_stmt(rng, &mut counter);
+        let st = queue.pop_front().unwrap_or_else(|| gen_stmt(rng, &mut counter));
         let sql = st.sql();
         sqls.push(sql.clone());
         let out = exec(&ctx, &st).await;
@@ -580,6 +638,15 @@ async fn one_history(run: &mut Run, rng: &mut Rng, h: u64, max_len: u64) {
         req.push(st.sexp());
         ans.push(format!("{out}{}", now.text));
         prev = now;
+    }
+    // ---- O4: every listed object can be queried through its quoted, fully qualified name
+    for k in &prev.user_tables {
+        let q = format!("SELECT * FROM \"{}\".\"{}\".\"{}\"", k.0, k.1, k.2);
+        let ok = match ctx.sql(&q).await {
+            Ok(_) => true,
+            Err(e) => !matches!(classify(&e.to_string()).as_str(), "err:unresolved" | "err:badname"),
+        };
+        run.oracle(ok, &format!("listed-object-not-queryable {}.{}.{}", k.0, k.1, k.2), &format!("history {sqls:?}: `{q}` does not resolve although information_schema.tables lists the object"));
     }
     // ---- O3: views over untouched base tables return their query's rows
     for (k, vi) in &views {
